@@ -2,7 +2,7 @@
 import sys
 
 from .. import harness
-from ..gen import layouts, programs
+from ..gen import layouts, macrosets, programs
 from ..ref import bytecode, pipeline
 from . import common
 
@@ -10,11 +10,11 @@ ID = "C16"
 LEVEL = "exploration"
 TECHNIQUE = "reference-model monitor: R5 iteration counts + R8 call-graph reachability on emitted code + inline activation-depth monitor at every instruction boundary, under ASan+UBSan"
 FLAVOURS = [("asan", "generated")]
-RULE = ("(a) WHILE/GOTO-free generated programs whose LOOP bodies assign their own bound; a fresh counter cK := cK + 1 in every LOOP body makes the "
+RULE = ("(a) WHILE/GOTO-free generated programs whose LOOP bodies assign their own bound (a fifth of them through library macros whose temporaries bound two loops or are assigned inside their loop); a fresh counter cK := cK + 1 in every LOOP body makes the "
         "number of iterations actually performed observable in the final variables, which must equal the reference (bound value at entry); "
         "the VM must reach HALT within the bound derived from the reference step count; activation depth is monitored after every instruction "
         "and must stay <= #definitions + 1; the call graph of the emitted code (routines = reachability classes, edges = EXEC) must be acyclic; "
-        "also call chains through 130-300 definitions, 260-520 definitions, LOOP nests 70-260 deep, 260 parameters / locals; "
+        "also call chains through 130 and 1100 definitions, LOOP nests 70 and 1100 deep, 1100 parameters / locals; "
         "(b) a systematic family of self / forward / mutual references, also through includes and redefinitions, each judged by R4; "
         "non-trivial = (a) >= 1 loop iteration with a bound-modifying body or >= 1 call, (b) every attempt; distinct by SHA-1 of the files")
 ASSUMPTIONS = ["R4 decides which reference attempts are legal (a callee must be completely defined earlier in the text; a redefinition may call the previous definition of its own name)",
@@ -120,6 +120,14 @@ def _work(spec):
                 toks = [t for l in programs.to_lines(p, programs.Speller(r)) for t in l]
                 items.append(({"main": " ".join(toks)}, "main", "loop"))      # the whole program on one line
                 continue
+            if k_ % 5 == 3:
+                # LOOPs that come out of macro bodies: bounds that are macro temporaries, used for two loops or assigned inside their loop
+                for _try in range(20):
+                    files, main, _ = macrosets.library_program(r, layout=r.random() < 0.3)
+                    if not any("while" in v.lower() for v in files.values()):
+                        break
+                items.append((files, main, "loop"))
+                continue
             p = loop_program(r)
             lines = programs.to_lines(p, programs.Speller(r))
             q = r.random()
@@ -136,7 +144,7 @@ def _work(spec):
             items += attempts(r)
         for text, kind in programs.long_distance_sources(r)[:1]:
             items.append(({"main": text}, "main", "loop"))     # a LOOP whose body is longer than 2^15 instructions
-        for files, main, kind in programs.scale_sources(r, small=spec["reps"] == 1):
+        for files, main, kind in programs.scale_sources(r, small=True) + programs.scale_sources(r, large=True):
             # call chains through 130-300 definitions, 260-520 definitions, LOOPs nested 70-260 deep, 260 parameters / locals
             if any(w in kind for w in ("call-chain", "definitions", "loop-nesting", "parameters", "locals")):
                 items.append((files, main, "loop"))
@@ -215,6 +223,8 @@ def _work(spec):
         bad = []
         for (rn, rv), (_, ov) in zip(exp, r_["acts"]):
             for k, v in rv.items():
+                if k.startswith("\x00"):
+                    continue   # a macro temporary: the reference's name for it is not the compiler's (C10 maps them)
                 if ov.get(k) != v:
                     bad.append("%s = %s, reference %d%s" % (k, ov.get(k), v, " (iteration counter)" if k.startswith("c") and k[1:].isdigit() else ""))
         if bad or len(exp) != len(r_["acts"]):
